@@ -512,6 +512,21 @@ fn boundary_case(out: &mut CaseOut, _cfg: &Cfg, c: &Case, ops: &dyn crate::suite
         let mut rng = ScriptRng::new(&k.ikm_e);
         ops.setup_sender(m, &k.pk_r, info, &mut rng).ok().map(|x| x.1)
     };
+    // the two sealing forms at sequence numbers whose counter bytes all differ from one another
+    if let (Some(mut sa), Some(mut sb)) = (mk(), mk()) {
+        for p in [1u64 << 40, (1 << 40) | (2 << 8) | (3 << 16), 0x0102_0304_0506_0708, (1 << 56) | (7 << 48) | 9] {
+            sa.set_seq(p);
+            sb.set_seq(p);
+            let (pt, aad, ct) = msg(p as u128, 9);
+            let a = sa.seal(&pt, &aad);
+            let mut buf = pt.clone();
+            let b = sb.seal_ip(&mut buf, &aad).map(|t| [&buf[..], &t[..]].concat());
+            out.transitions += 2;
+            if a != b || a != Obs::Ok(ct) {
+                out.fail(format!("at sequence number {:#x}: seal() gives {}, seal_in_place_detached() gives {} - both should be R1's ciphertext", p, a.class(), b.class()));
+            }
+        }
+    }
     if let (Some(mut sa), Some(mut sb)) = (mk(), mk()) {
         sa.set_seq(u64::MAX - 1);
         sb.set_seq(u64::MAX - 1);
